@@ -695,9 +695,50 @@ class Parser:
         self.funcs.append({"name": name, "ret": ret, "params": params, "body": body})
 
 
+# GLSL 4.60 / ES 3.20 built-in function names (chapter 8), to tell a call of an undeclared function from a built-in
+GLSL_BUILTIN_FUNCTIONS = set("""
+radians degrees sin cos tan asin acos atan sinh cosh tanh asinh acosh atanh pow exp log exp2 log2 sqrt inversesqrt
+abs sign floor trunc round roundEven ceil fract mod modf min max clamp mix step smoothstep isnan isinf floatBitsToInt
+floatBitsToUint intBitsToFloat uintBitsToFloat fma frexp ldexp packUnorm2x16 packSnorm2x16 packUnorm4x8 packSnorm4x8
+unpackUnorm2x16 unpackSnorm2x16 unpackUnorm4x8 unpackSnorm4x8 packHalf2x16 unpackHalf2x16 packDouble2x32
+unpackDouble2x32 length distance dot cross normalize faceforward reflect refract matrixCompMult outerProduct transpose
+determinant inverse lessThan lessThanEqual greaterThan greaterThanEqual equal notEqual any all not uaddCarry usubBorrow
+umulExtended imulExtended bitfieldExtract bitfieldInsert bitfieldReverse bitCount findLSB findMSB textureSize
+textureQueryLod textureQueryLevels textureSamples texture textureProj textureLod textureOffset texelFetch
+texelFetchOffset textureProjOffset textureLodOffset textureProjLod textureProjLodOffset textureGrad textureGradOffset
+textureProjGrad textureProjGradOffset textureGather textureGatherOffset textureGatherOffsets atomicCounterIncrement
+atomicCounterDecrement atomicCounter atomicAdd atomicMin atomicMax atomicAnd atomicOr atomicXor atomicExchange
+atomicCompSwap imageSize imageSamples imageLoad imageStore imageAtomicAdd imageAtomicMin imageAtomicMax imageAtomicAnd
+imageAtomicOr imageAtomicXor imageAtomicExchange imageAtomicCompSwap dFdx dFdy dFdxFine dFdyFine dFdxCoarse dFdyCoarse
+fwidth fwidthFine fwidthCoarse interpolateAtCentroid interpolateAtSample interpolateAtOffset barrier memoryBarrier
+memoryBarrierAtomicCounter memoryBarrierBuffer memoryBarrierShared memoryBarrierImage groupMemoryBarrier
+subgroupBarrier subgroupMemoryBarrier subgroupMemoryBarrierBuffer subgroupMemoryBarrierShared subgroupMemoryBarrierImage
+subgroupElect subgroupAll subgroupAny subgroupAllEqual subgroupBroadcast subgroupBroadcastFirst subgroupBallot
+subgroupAdd subgroupMul subgroupMin subgroupMax subgroupAnd subgroupOr subgroupXor subgroupInclusiveAdd
+subgroupInclusiveMul subgroupExclusiveAdd subgroupExclusiveMul subgroupShuffle subgroupShuffleXor subgroupShuffleUp
+subgroupShuffleDown subgroupQuadBroadcast subgroupQuadSwapHorizontal subgroupQuadSwapVertical subgroupQuadSwapDiagonal
+EmitVertex EndPrimitive
+""".split())
+
+
+class IllFormed(Exception):
+    """well-formed token stream, but not a GLSL program: a call of a function that is neither declared nor built in"""
+    pass
+
+
+def check_calls(ast):
+    declared = set()
+    for f in ast["funcs"]:
+        for c in called_functions(f["body"]):
+            if c not in declared and c != f["name"] and c not in GLSL_BUILTIN_FUNCTIONS:
+                raise IllFormed("call of the undeclared function %s in %s (functions must be declared before use)" % (c, f["name"]))
+        declared.add(f["name"])
+
+
 def parse(text):
     p = Parser(text)
     ast = p.toplevel()
+    check_calls(ast)
     return {"ast": ast, "meta": p.meta}
 
 
